@@ -190,6 +190,7 @@ spif_module_call(spif_module_t self, spif_charptr_t fname, spif_ptr_t data)
     spif_func_t fp;
     spif_charptr_t err;
 
+    ASSERT_RVAL(!SPIF_MODULE_ISNULL(self), (spif_ptr_t) NULL);
     fp = (spif_func_t) spif_module_getsym(self, fname);
     if (SPIF_PTR_ISNULL(err)) {
         /* No error.  Proceed. */
